@@ -367,6 +367,20 @@ def build_c(ast, unit, registry):
     if callee_ghosts:
         tcontract += '\n__CPROVER_assigns(%s)\n' % binds_list
     uloops = unit.loops(ast, L, tf) if callable(unit.loops) else unit.loops
+    # loop contracts keyed by nest path ("2.1"): mapped to the ordinal of the loop with that path; a contract for a loop that does not exist is dropped
+    dropped_loops = []
+    if any(isinstance(k, str) for k in uloops):
+        inv = {v: k for k, v in tf.loop_paths.items()}
+        mapped = {}
+        for k, v in uloops.items():
+            if isinstance(k, str):
+                if k in inv:
+                    mapped[inv[k]] = v
+                else:
+                    dropped_loops.append(k)
+            else:
+                mapped[k] = v
+        uloops = mapped
     tloops = {k: subst(expand_ghost(v, unit, tf.cname), tf).replace('@BINDS', binds_list) for k, v in uloops.items()}
     lifted = list(L.lifted)
     ll = unit.lifted_loops(ast, L, tf, lifted) if (unit.lifted_loops and not unit.lifted_target) else {}
@@ -441,7 +455,7 @@ def build_c(ast, unit, registry):
                 if c2 not in have and c2 not in still and c2 not in missing and not any(re.match(rx + '$', c2) for rx in stub_rx):
                     still.append(c2)
         missing = still
-    facts = {'target': tf.cname, 'src': tf.src, 'locals': tf.locals, 'loops': tf.loops, 'leaf_inlined': leaf,
+    facts = {'target': tf.cname, 'src': tf.src, 'locals': tf.locals, 'loops': tf.loops, 'leaf_inlined': leaf, 'dropped_loop_contracts': dropped_loops,
              'calls': sorted(set(tf.calls)), 'libcalls': sorted(set(tf.libcalls)), 'replaced': replaced,
              'inlined': [f.cname for f, _, _ in fns[1:]], 'unresolved_callees': missing, 'rules': tf.rules}
     for k in uloops:
